@@ -8,6 +8,8 @@ package main
 // and the local server are decided by the linearizability acceptor of the driver.
 
 import (
+	"bytes"
+	gonet "net"
 	"encoding/binary"
 	"fmt"
 	"io/ioutil"
@@ -41,6 +43,7 @@ type sdWorld struct {
 	mu      sync.Mutex
 	added   []string
 	removed []string
+	deaf    []gonet.Conn
 }
 
 var sdw *sdWorld
@@ -87,7 +90,54 @@ func sdNew() (*sdWorld, string) {
 	return w, "ok"
 }
 
+func sdDeafBystander(w *sdWorld) string {
+	conn, err := gonet.Dial("unix", strings.TrimPrefix(w.addr, "unix://"))
+	if err != nil {
+		return "setup-error:" + err.Error()
+	}
+	w.deaf = append(w.deaf, conn)
+	var buf bytes.Buffer
+	if err := bus.WriteCapabilityMap(bus.ClientCap("", ""), &buf); err != nil {
+		return "setup-error:" + err.Error()
+	}
+	send := func(h qnet.Header, p []byte) error { m := qnet.NewMessage(h, p); return m.Write(conn) }
+	read := func() (*qnet.Message, error) {
+		conn.SetReadDeadline(time.Now().Add(3 * time.Second))
+		m := new(qnet.Message)
+		return m, m.Read(conn)
+	}
+	if send(qnet.NewHeader(qnet.Call, 0, 0, 8, 2), buf.Bytes()) != nil {
+		return "setup-error:auth"
+	}
+	if m, err := read(); err != nil || m.Header.Type != qnet.Reply {
+		return "setup-error:auth"
+	}
+	meta := w.sd.Proxy().MetaObject()
+	for i, name := range []string{"serviceAdded", "serviceRemoved"} {
+		var sid uint32
+		for id, sg := range meta.Signals {
+			if sg.Name == name {
+				sid = id
+			}
+		}
+		p := append(append(le32(1), le32(sid)...), le64(uint64(880000+len(w.deaf)*10+i))...)
+		if send(qnet.NewHeader(qnet.Call, 1, 1, 0, uint32(10+i)), p) != nil {
+			return "setup-error:subscribe"
+		}
+		if m, err := read(); err != nil || m.Header.Type != qnet.Reply {
+			return "setup-error:subscribe"
+		}
+	}
+	if u, ok := conn.(*gonet.UnixConn); ok {
+		u.CloseRead()
+	}
+	return "ok"
+}
+
 func (w *sdWorld) close() {
+	for _, c := range w.deaf {
+		c.Close()
+	}
 	w.sess.Terminate()
 	w.srv.Terminate()
 }
@@ -150,6 +200,11 @@ func execSd(op string) func(a []string) string {
 			nw, res := sdNew()
 			sdw = nw
 			return res
+		case "deaf":
+			// a bystander: a connection subscribed to both signals of the directory that stops reading for good (its
+			// reading side is shut down, it does not close): the server's writes to it fail from now on, while the
+			// server sees no end of that stream.  What the directory answers its other clients is what it was.
+			return sdDeafBystander(w)
 		case "reg":
 			k, err := w.sd.RegisterService(sdInfo(a[0], a[1], a[2], a[3], 0))
 			if err != nil {
@@ -630,7 +685,7 @@ func init() {
 		}
 		return out.Result
 	}
-	for _, op := range []string{"reset", "reg", "ready", "unreg", "update", "service", "services", "lnew", "lterm", "events"} {
+	for _, op := range []string{"deaf", "reset", "reg", "ready", "unreg", "update", "service", "services", "lnew", "lterm", "events"} {
 		executors["sd."+op] = execSd(op)
 	}
 	executors["sd.lin"] = func(a []string) string { return "lin" }
@@ -695,6 +750,10 @@ func runC15(r *Rand, tier string, o *Out) {
 	}
 	for s := 0; s < scripts; s++ {
 		o.Do("P", "sd.reset", false)
+		if r.Chance(35) {
+			o.Do("P", "sd.deaf", false)
+			o.Count("world:a-subscriber-that-stopped-reading")
+		}
 		var ids, locals []int
 		for k := range idName {
 			delete(idName, k)
